@@ -4,6 +4,11 @@ import (
 	"context"
 	"fmt"
 	"runtime"
+
+	"github.com/acquirecloud/golibs/kvs"
+	kvredis "github.com/acquirecloud/golibs/kvs/redis"
+	"github.com/alicebob/miniredis/v2"
+	goredis "github.com/go-redis/redis/v8"
 	"sync"
 	"sync/atomic"
 	"testing"
@@ -24,12 +29,23 @@ type StressCase struct {
 	Workers   []int   `json:"workers"` // Locker used by each worker
 	Kinds     [][]int `json:"kinds"`   // per worker, per round: acquire kind
 	Yields    [][]int `json:"yields"`
+	Redis     bool    `json:"redis,omitempty"` // storage = the Redis backend over an own miniredis server
 }
 
 func runStress(c StressCase) *vstat.Violation {
 	resetTimers()
 	defer drainTimers()
-	st := inmem.New()
+	var st kvs.Storage = inmem.New()
+	if c.Redis {
+		m, err := miniredis.Run()
+		if err != nil {
+			return nil // infrastructure, not a verdict
+		}
+		defer m.Close()
+		rs := kvredis.New(&goredis.Options{Addr: m.Addr(), PoolSize: 32})
+		defer rs.(interface{ Close() error }).Close()
+		st = rs
+	}
 	var provs []dist.LockProvider
 	for i := 0; i < c.Providers; i++ {
 		provs = append(provs, dist.NewKvsLockProvider(st, lockPath))
@@ -73,7 +89,11 @@ func runStress(c StressCase) *vstat.Violation {
 					}
 				case KLockWithCtx:
 					ctx, cancel := context.WithTimeout(context.Background(), 20*time.Second)
-					got = lk.LockWithCtx(ctx) == nil
+					err := lk.LockWithCtx(ctx)
+					got = err == nil
+					if err != nil && ctx.Err() == nil {
+						viol.CompareAndSwap(nil, vstat.V("lockwithctx-error", "worker %d: LockWithCtx with a live context failed: %v", wi, err))
+					}
 					cancel()
 				}
 				if !got {
@@ -99,7 +119,31 @@ func runStress(c StressCase) *vstat.Violation {
 	case <-time.After(120 * time.Second):
 		return vstat.V("stress-stuck", "the free-running workers did not finish within 120 s (acquired %d times)", acquired.Load())
 	}
-	return viol.Load()
+	if v := viol.Load(); v != nil {
+		return v
+	}
+	// once every holder has unlocked nothing is left behind
+	if it, err := st.ListKeys(context.Background(), lockPath+"*"); err == nil {
+		var left []string
+		for it.HasNext() {
+			k, ok := it.Next()
+			if !ok {
+				break
+			}
+			left = append(left, k)
+		}
+		it.Close()
+		if len(left) > 0 {
+			return vstat.V("record-left-behind", "every worker has finished and unlocked, but the storage still holds %q", left)
+		}
+	}
+	for i, lk := range lockers {
+		if !lk.TryLock(context.Background()) {
+			return vstat.V("cannot-reacquire", "every worker has finished and unlocked, but TryLock on locker %d returns false", i)
+		}
+		lk.Unlock()
+	}
+	return nil
 }
 
 func TestC01Stress(t *testing.T) {
@@ -136,5 +180,44 @@ func TestC01Stress(t *testing.T) {
 			distinct[l] = true
 		}
 		st.Case(len(distinct) >= 2, vstat.Hash(c), func() any { return c }, "stress_free_running", fmt.Sprintf("stress_workers_%d", len(c.Workers)))
+	})
+}
+
+// TestC04Redis: hand-off chains over the Redis backend (its Create is SETNX + GET, its wait is polling): every blocking
+// attempt with a live context gets the lock, nothing is left behind, everybody can acquire again.
+func TestC04Redis(t *testing.T) {
+	if !hooksOn {
+		t.Skip("timeout hooks unavailable")
+	}
+	st := vstat.For("C04")
+	rapid.Check(t, func(rt *rapid.T) {
+		c := StressCase{Providers: rapid.IntRange(1, 2).Draw(rt, "providers"), Redis: true}
+		nl := rapid.IntRange(2, 4).Draw(rt, "lockers")
+		for i := 0; i < nl; i++ {
+			c.Lockers = append(c.Lockers, rapid.IntRange(0, c.Providers-1).Draw(rt, "prov"))
+		}
+		nw := rapid.IntRange(2, 6).Draw(rt, "workers")
+		for i := 0; i < nw; i++ {
+			c.Workers = append(c.Workers, i%nl)
+			nr := rapid.IntRange(1, 12).Draw(rt, "rounds")
+			var ks, ys []int
+			for r := 0; r < nr; r++ {
+				ks = append(ks, rapid.SampledFrom([]int{KLock, KLock, KTryLock, KLockWithCtx, KLockWithCtx}).Draw(rt, "kind"))
+				ys = append(ys, rapid.IntRange(0, 2).Draw(rt, "yield"))
+			}
+			c.Kinds = append(c.Kinds, ks)
+			c.Yields = append(c.Yields, ys)
+		}
+		v := runStress(c)
+		if v != nil && v.Sig == "stress-stuck" {
+			if v2 := runStress(c); v2 == nil || v2.Sig != "stress-stuck" {
+				st.Inconclusivef("redis hand-off case hit its wall-clock budget once: %s", v.Msg)
+				v = v2
+			} else {
+				v = vstat.V("lost-wakeup", "free-running hand-off over the Redis backend: %s (twice)", v.Msg)
+			}
+		}
+		st.Report(rt, "TestC04Redis", c, v)
+		st.Case(true, vstat.Hash(c), func() any { return c }, "redis_backend_handoff")
 	})
 }
